@@ -34,3 +34,5 @@ def run(ctx):
         codecs20.search(ctx)
         from .. import shortio        # write () interposed (harness/shortio.c): the closed bytes do not depend on how the OS split a transfer (lean/SfModel/ShortIo.lean)
         shortio.run(ctx, "C07")
+        from .. import handleg       # (round 9) the GENERIC handle machine Sf.HandleG: whole histories on AIFF / CAF / W64 / AVR / IRCAM / PAF / HTK (+ RAW / AU / WAV) byte for byte incl. store dumps
+        handleg.run(ctx, "C07", 150 if q else 3000)
